@@ -22,9 +22,9 @@ G_GROUPS = {
     "seq4": ("MC_Yata", "G_seq4.cfg", {}),
     "map4": ("MC_Yata", "G_map4.cfg", {}),
     # rich text (spec/Rich.tla): a two-unit text, then every two / three free operations ins / del / FORMAT of two authors
-    "fmt3": ("MC_YataFmt", "G_fmt3.cfg", {"filter": "fmt", "sample": {"quick": 1000, "thorough": 10000}}),
+    "fmt3": ("MC_YataFmt", "G_fmt3.cfg", {"filter": "fmt", "sample": {"quick": 1000, "thorough": 5000}}),
     # three free operations: 8.8 M states after 25 min of exhaustive search (measured), hence seeded TLC simulation (thorough tier only)
-    "fmt4": ("MC_YataFmt", "G_fmt4.cfg", {"filter": "fmt", "sample": {"quick": 1500, "thorough": 10000}, "simulate": {"quick": 400, "thorough": 4000}}),
+    "fmt4": ("MC_YataFmt", "G_fmt4.cfg", {"filter": "fmt", "sample": {"quick": 1500, "thorough": 5000}, "simulate": {"quick": 400, "thorough": 2500}}),
 }
 RICH_FAMILIES = ["fmtdup", "fmtovl", "fmtdel", "fmtovw", "fmtins", "fmthole"]
 D_GROUPS = {
@@ -43,7 +43,7 @@ TIERS = {
               "rich": ["fmt3"] + ["script:" + f for f in RICH_FAMILIES], "rich_random": 1},
     "thorough": {"design": ["d_seq", "d_map", "d_nest", "d_seq4", "d_map4", "d_nest4", "d_rich", "d_rich6"],
                  "gen": ["seq3", "map3", "nesta3", "nestm3", "alg3", "algm3", "script:gapdel", "script:gapdep", "script:gappar", "script:gapkey", "seq4", "map4"], "random": 30,
-                 "rich": ["fmt3", "fmt4"] + ["script:" + f for f in RICH_FAMILIES], "rich_random": 6},
+                 "rich": ["fmt3", "fmt4"] + ["script:" + f for f in RICH_FAMILIES], "rich_random": 4},
 }
 
 
@@ -130,7 +130,7 @@ def _cache_path(*parts):
 
 
 SCRIPT_SAMPLE = {"quick": 120, "thorough": 2500}
-RICH_SCRIPT_SAMPLE = {"quick": 30, "thorough": 300}
+RICH_SCRIPT_SAMPLE = {"quick": 30, "thorough": 150}
 
 
 def gen_script_family(fam, tier, workdir):
